@@ -101,14 +101,15 @@ def opt_text(op):
 
 def judge(o: Outcome, c, ob, origin, model=True):
     o.evaluations += 1
-    call = "expand(" + ", ".join(x for x in ("text", opt_text(c.get("o"))) if x) + ")" if opt_text(c.get("o")) else "expand()"
     hist = ob.get("history")
+    optrun = origin.startswith(("O", "VO"))
+    call = "expand(" + ", ".join(x for x in (repr(ob["src"][:120]), opt_text(c.get("o"))) if x) + ")" if optrun else "expand()"
     where = ""
     if hist:
         where = (f" as call {len(hist) + 1} on one started page (no start_page in between) after " + "; ".join(f"expand({h[0][:80]!r}{', ' + h[1] if h[1] else ''})" for h in hist)
-                 + f" [expand_stack before the call: {ob['before'][:4]}]")
-    elif origin.startswith(("O", "VO")):
-        where = " on a freshly started page"
+                 + f"; expand_stack before this call: {ob['before'][:4]}, after it: {ob['after'][:4]}")
+    elif optrun:
+        where = f" on a freshly started page; expand_stack after the call: {ob['after'][:4]}"
     case = {"origin": origin, **({"options": opt_text(c.get("o")) or "defaults", "history": hist, "stack_before": ob["before"][:6], "stack_after": ob["after"][:6]}
                                  if origin.startswith(("O", "VO")) else {}), "lib": {k: tr.render_body(v) for k, v in c["lib"].items()}, "page": ob["src"][:400],
             "out": (ob["out"] or "")[:400], "exception": ob["exc"], "wall_s": round(ob["wall"], 2), "messages": ob["msgs"][:5]}
@@ -119,7 +120,7 @@ def judge(o: Outcome, c, ob, origin, model=True):
             o.classify(case, f"expand(pre_expand=True) raised {ob['exc']} on {origin}: calls left unexpanded do not count towards the depth limit",
                        [DEV_UNEXPANDED], cls="exception-unexpanded-nesting")
         else:
-            o.violation(case, f"{call} raised {ob['exc']}{where}", cls="exception-options" if where else "exception")
+            o.violation(case, f"{call} raised {ob['exc']}{where}", cls=("exception-in-history" if hist else "exception-options") if where else "exception")
         return
     if not isinstance(ob["out"], str):
         o.violation(case, f"{call} did not return a string{where}", cls="type")
@@ -621,5 +622,13 @@ def selftest() -> int:
     judge_ladder(o, c, {"src": "x", "out": "<ERR:depth>", "nout": "<ERR:depth>", "exc": None, "stopped": False, "wall": 0.0, "cpu": 0.0, "msgs": []})
     silent_cut = len(o.violations) > before
     print("error element without a recorded error rejected:", silent_cut)
-    ok = cuts > 5 and d.invariant_violated and verdicts[0][1] and not verdicts[0][2] and (verdicts[1][2] or not verdicts[1][1]) and silent_cut
+    # options x histories: a fabricated exception of a call inside a history must be rejected, naming options and predecessors
+    vo = random_option_cases(random.Random(1), 50)
+    c = next(c for c in vo if not c["o"]["invoke"])
+    before = len(o.violations)
+    judge(o, {**c, "out": []}, {"src": tr.render(c["page"]), "out": None, "nout": None, "exc": "IndexError('fabricated')", "before": [], "after": [], "wall": 0.0, "msgs": [],
+                                "history": [("{{#invoke:M|echo}}", "expand_invoke=False")]}, "VO-history", model=False)
+    opt_rejected = len(o.violations) > before and "expand_invoke=False" in o.violations[-1]["why"] and "as call 2 on one started page" in o.violations[-1]["why"]
+    print("fabricated exception inside a history of calls with options rejected:", opt_rejected)
+    ok = cuts > 5 and d.invariant_violated and verdicts[0][1] and not verdicts[0][2] and (verdicts[1][2] or not verdicts[1][1]) and silent_cut and opt_rejected
     return 0 if ok else 1
